@@ -73,6 +73,17 @@ func H_C19_sign1() {
 	}
 	vAssert("sign1: decoding into a used variable equals decoding into a fresh one", vDeepEqual(dst, fresh))
 	vAssert("sign1: the decoded value shares no memory with the input buffer", !vAliases(&dst, buf))
+	// a decoded value is the caller's own: editing another message decoded from the same bytes leaves it alone
+	snapD := vSnapshot(&dst)
+	vFreeze()
+	if fresh.Headers.Protected != nil {
+		fresh.Headers.Protected.SetAlgorithm(Algorithm(vInt64("edit.alg")))
+	}
+	if fresh.Headers.Unprotected != nil {
+		fresh.Headers.Unprotected[int64(4)] = []byte{7}
+	}
+	vUnfreeze()
+	vAssert("sign1: two decoded values share no memory (editing one leaves the other as it was)", !vChanged(&dst, snapD))
 	vReach("accepted")
 }
 
